@@ -539,9 +539,11 @@ fn base_request(rng: &mut Rng) -> Base {
         }
         _ => {
             bucket = rng.pick(&["static.example.com", "files.example.org", "cdn-7.example.net"]).to_owned();
-            // the documentation's Upload example names the bucket with a port in the Host header
-            let port = if rng.chance(1, 6) { ":8080" } else { "" };
-            headers.push(("Host".to_owned(), format!("{bucket}{port}")));
+            // the documentation's Upload example names the bucket with a port in the Host header: the port is no
+            // part of the bucket (nor is the case the host is written in)
+            let port = if rng.chance(1, 2) { rng.pick(&[":8080", ":80", ":443", ":9000", ":0"]) } else { "" };
+            let name = if rng.chance(1, 6) { bucket.replacen("example", "Example", 1) } else { bucket.clone() };
+            headers.push(("Host".to_owned(), format!("{name}{port}")));
             (Some(endpoint.to_owned()), Some(bucket.clone()))
         }
     };
@@ -712,7 +714,13 @@ fn mutations(rng: &mut Rng, b: &Base, unsigned: &GReq, signed: &GReq, expires: &
         let other = format!("{}x", b.bucket.replace('.', "-"));
         if let Some(vh) = &signed.vh_bucket {
             if let Some(i) = find_header(&r, "host") {
-                r.headers[i].1 = r.headers[i].1.replacen(vh.as_str(), &other, 1);
+                // the bucket is the head of the Host value, in whatever case it is written
+                let h = r.headers[i].1.clone();
+                r.headers[i].1 = if h.to_ascii_lowercase().starts_with(vh.as_str()) {
+                    format!("{other}{}", &h[vh.len()..])
+                } else {
+                    h.replacen(vh.as_str(), &other, 1)
+                };
                 out(&r, "reject", "mut-bucket-host");
             }
         } else {
